@@ -951,7 +951,9 @@ Section Main.
     - unfold prove, keybytes_to_hex. destruct (nibbles_of key ++ [16]) eqn:E.
       + destruct (nibbles_of key); discriminate.
       + reflexivity.
-    - reflexivity.
+    - unfold verify_proof, verify_fuel.
+      destruct ((length (keybytes_to_hex key) + 1) * (length (@nil (list N * list N)) + 1) + 1)%nat eqn:E;
+        [lia|reflexivity].
     - apply lk_empty.
   Qed.
 End Main.
@@ -962,7 +964,8 @@ Lemma split_bytes b k c r : bytesb b = true -> Raw.split b = Ok (k, c, r) ->
   bytesb c = true /\ bytesb r = true.
 Proof.
   intros Hb Hs. destruct (split_sound b k c r Hb Hs) as [E _]. subst b.
-  unfold chunk in Hb. rewrite !bytesb_app in Hb. lia.
+  unfold chunk in Hb. rewrite !bytesb_app in Hb.
+  apply andb_true_iff in Hb as [Hb Hr]. apply andb_true_iff in Hb as [_ Hc]. auto.
 Qed.
 
 Lemma split_string_bytes b c r : bytesb b = true -> split_string b = Ok (c, r) ->
@@ -975,7 +978,7 @@ Qed.
 Lemma wf_hex_skipn_nib p n : forallb nibbleb p = true -> wf_hex (skipn n p) = true.
 Proof.
   intros Hp. assert (Hs : forallb nibbleb (skipn n p) = true).
-  { rewrite <- (firstn_skipn n p), forallb_app in Hp. lia. }
+  { rewrite <- (firstn_skipn n p), forallb_app in Hp. apply andb_true_iff in Hp. tauto. }
   unfold wf_hex. rewrite (has_term_nib_false _ Hs). exact Hs.
 Qed.
 
@@ -989,7 +992,7 @@ Proof.
   - rewrite removelast_last. apply wf_hex_skipn_nib, Hn.
   - rewrite skipn_app.
     assert (Hs : forallb nibbleb (skipn n (nibbles_of c)) = true).
-    { rewrite <- (firstn_skipn n (nibbles_of c)), forallb_app in Hn. lia. }
+    { rewrite <- (firstn_skipn n (nibbles_of c)), forallb_app in Hn. apply andb_true_iff in Hn. tauto. }
     destruct (n - length (nibbles_of c))%nat as [|m].
     + cbn [skipn]. unfold wf_hex. rewrite has_term_app_16, removelast_last. exact Hs.
     + replace (skipn (S m) [16]) with (@nil N) by (destruct m; reflexivity).
